@@ -289,8 +289,16 @@ def run_check(prop, tier, base_seed, workers=16, budget_s=None, replay=None,
     r, err = confirm_replay(prop, v['replay'], extra_env)
     if r is not None and r['reproduced']:
       confirmed.append(v)
-    else:
-      unconfirmed.append((v, err))
+      continue
+    orig = v['replay'][:-5] + '.orig.json'
+    if os.path.exists(orig):
+      r2, err2 = confirm_replay(prop, orig, extra_env)
+      if r2 is not None and r2['reproduced']:
+        say(f"[{prop}] note: the minimised scenario of {v['signature']} does not reproduce in a fresh process (the "
+            f"system under test keeps state across scenarios); reporting the unminimised scenario instead")
+        confirmed.append(dict(v, replay=orig))
+        continue
+    unconfirmed.append((v, err))
   wall = time.time() - t0
   n_viol_sigs = len({v['signature'] for v in violations})
 
